@@ -3,8 +3,10 @@ package main
 import (
 	"fmt"
 	"go/ast"
+	"go/token"
 	"path/filepath"
 	"sort"
+	"strconv"
 	"strings"
 )
 
@@ -300,6 +302,37 @@ func genWriters(root *pkgSrc) {
 	}
 	sort.Strings(sites)
 	fmt.Fprintf(&b, "/-- functions that write an event through a GET connection's responder -/\ndef getStreamWriteSites : List String := [%s]\n", strings.Join(sites, ", "))
+	// the legacy server's keep-alive: the string literals handed to fmt.Fprint(w, …) / fmt.Fprintf(w, …) in
+	// handleKeepAlive, as byte lists (the model's `LegacyItem.keepalive` frame must be exactly this)
+	var ka []string
+	if fd, _ := root.funcDecl("handleKeepAlive"); fd != nil && fd.Body != nil {
+		ast.Inspect(fd.Body, func(n ast.Node) bool {
+			c, ok := n.(*ast.CallExpr)
+			if !ok {
+				return true
+			}
+			t := root.text(c.Fun)
+			if (t == "fmt.Fprint" || t == "fmt.Fprintf" || t == "io.WriteString") && len(c.Args) >= 2 && root.text(c.Args[0]) == "w" {
+				for _, a := range c.Args[1:] {
+					if lit, ok := a.(*ast.BasicLit); ok && lit.Kind == token.STRING {
+						if v, err := strconv.Unquote(lit.Value); err == nil {
+							var bs []string
+							for _, ch := range []byte(v) {
+								bs = append(bs, strconv.Itoa(int(ch)))
+							}
+							ka = append(ka, "["+strings.Join(bs, ", ")+"]")
+						} else {
+							ka = append(ka, "[0]")
+						}
+					} else {
+						ka = append(ka, "[0]") // not a literal: the frame is no longer a constant
+					}
+				}
+			}
+			return true
+		})
+	}
+	fmt.Fprintf(&b, "/-- `handleKeepAlive`: the bytes of what it writes on the legacy SSE stream (one entry per argument) -/\ndef keepAliveFrames : List (List Nat) := [%s]\n", strings.Join(ka, ", "))
 	b.WriteString("end Mcp.Gen\n")
 	writeIfChanged("Writers.lean", b.String())
 }
